@@ -44,6 +44,7 @@ type profile struct {
 	reqKinds     []string
 	limitRunPct  int // percentage of histories that start by driving one subscription to the count limit
 	mutatePct    int // percentage of service messages structurally mutated (only C15 checks apply then)
+	burstPct     int // percentage of steps that issue 2-4 stimuli without settling in between
 }
 
 func stdUniverse() *universe {
@@ -182,6 +183,13 @@ func profiles() map[string]profile {
 	p.reqKinds = []string{"subscribe", "subscribe", "get", "call", "auth", "new", "unsubscribe"}
 	p.mutatePct = 30
 	ps["mutate"] = p
+
+	p = baseProfile("burst") // several stimuli at once: the gateway's goroutines really race
+	p.maxClients = 3
+	p.wConnect, p.wDisconnect, p.wEvict, p.wEvent, p.wToken, p.wReset = 5, 5, 6, 22, 4, 5
+	p.eventKinds = []string{"change", "add", "remove", "custom", "custom", "delete", "reaccess", "query"}
+	p.burstPct = 60
+	ps["burst"] = p
 	return ps
 }
 
@@ -814,6 +822,31 @@ func (g *gen) rawFrame() {
 }
 
 func (g *gen) step() {
+	if g.p.burstPct > 0 && !g.w.noSettle && g.r.chance(g.p.burstPct, 100) {
+		g.w.noSettle = true
+		for i, n := 0, 2+g.r.intn(3); i < n; i++ {
+			// only stimuli whose issuing does not itself need a quiescent gateway
+			switch g.r.intn(10) {
+			case 0, 1, 2:
+				g.clientRequest()
+			case 3, 4, 5:
+				g.answer()
+			case 6, 7:
+				g.event()
+			case 8:
+				g.tokenEvent()
+			default:
+				g.reset()
+			}
+		}
+		g.w.noSettle = false
+		g.w.apply("# burst end", func() {})
+		return
+	}
+	g.step1()
+}
+
+func (g *gen) step1() {
 	p := g.p
 	total := p.wConnect + p.wRequest + p.wAnswer + p.wEvent + p.wToken + p.wReset + p.wDisconnect + p.wEvict + p.wRawFrame + p.wTokenReset + p.wSilent + p.wHTTP
 	x := g.r.intn(total)
@@ -1162,6 +1195,20 @@ func runHistory(p profile, seed uint64, index int, keepSteps bool, wantSnap bool
 				hr.Viols = append(hr.Viols, v)
 			}
 		}
+	}
+	if w.concurrent {
+		// interleavings inside a burst are the gateway's own: only checks that do not depend on a
+		// particular order apply (crash, stall, frames, every request answered once, per-resource
+		// event order, everything released at the end)
+		hr.Mutated = true // (not compared with the model)
+		keep := map[string]bool{"C15": true, "C07": true, "C09": true}
+		var vs []violation
+		for _, v := range hr.Viols {
+			if keep[v.Prop] || (v.Prop == "C03" && v.Key == "event-duplicate-or-reordered") || (v.Prop == "C11" && strings.HasPrefix(v.Key, "entry")) {
+				vs = append(vs, v)
+			}
+		}
+		hr.Viols = vs
 	}
 	hr.Kinds = g.kinds
 	hr.NSteps = len(w.steps)
